@@ -59,6 +59,10 @@ def sweep_state(rng, pc):
             state[12] = v
         else:
             state[tgt], state[tgt + 1] = v >> 8, v & 0xFF
+    if rng.random() < 0.2:
+        # BC on the edges that matter to the block I/O instructions (port = BC, or (B-1):C; MEMPTR = port +/- 1)
+        bc = rng.choice((0x00FF, 0x0100, 0x0000, 0xFFFF, 0x01FF, 0xFF00, 0x0001, 0x80FD, 0x7FFD, 0x00FD))
+        state[2], state[3] = bc >> 8, bc & 0xFF
     state[14] = rng.randrange(256)
     state[15] = rng.choice((0, 0x7F, 0x80, 0xFF, rng.randrange(256)))
     state[24] = pc
